@@ -15,6 +15,7 @@ func TestVerifReplay(t *testing.T) {
 		fmt.Printf("VERIF-RESULT: no-harness %s\n", name)
 		return
 	}
+	defer vCleanup()
 	defer func() {
 		if r := recover(); r != nil {
 			switch r := r.(type) {
